@@ -293,15 +293,16 @@ func (e *Env) applyContract(fr *Frame, it *Item, fn *ssa.Function, args []Value,
 
 // havocModifies replaces the locations named by the modifies clauses by fresh values.
 func (e *Env) havocModifies(it *Item, ctx *SpecCtx, st *State) {
-	if pv, ok := it.Opts["preserves"]; ok {
-		e.havocAllBut(st, e.w.preservedTypes(it))
-		e.trust("calls into unknown code behind " + it.Name + " are assumed to leave the fields of the types in '" + pv + "' unchanged (and may change everything else)")
-		return
-	}
-	allocMay := false
 	// the locations named by the modifies clauses are those of the pre-call state (e.g.
 	// `s.items, s.items[*]`: the elements of the slice as it was, not of its havocked header)
 	pre := ctx.inState(st.clone())
+	if pv, ok := it.Opts["preserves"]; ok {
+		// unknown code behind the callee: everything but the preserved types may change; the
+		// callee's own declared modifications (which may lie inside preserved types) come on top
+		e.havocAllBut(st, e.w.preservedTypes(it))
+		e.trust("calls into unknown code behind " + it.Name + " are assumed to leave the fields of the types in '" + pv + "' unchanged (and may change everything else)")
+	}
+	allocMay := false
 	for _, c := range it.Clauses {
 		if c.Kind != "modifies" {
 			continue
@@ -908,7 +909,7 @@ func (e *Env) rangeNext(fr *Frame, x *ssa.Next, st *State) Value {
 	e.assume(mkImp(mkAnd(st.pc, mkNot(okv)), fmt.Sprintf("(forall ((%s %s)) (! (=> (and (select %s %s) (select (select %s %s) %s)) (select %s %s)) :pattern ((select %s %s))))",
 		kq, it.ks, it.dom0, kq, dom, it.m.Ref, kq, vis, kq, vis, kq)))
 	st.heap[it.vis] = e.maybeNameForce(mkIte(okv, mkStore(vis, k, tTrue), vis), srt, "vis")
-	e.noteWrite(it.vis, "0")
+	e.noteWrite(it.vis, k)
 	e.trust("map iteration: arbitrary order; each present, not yet visited key once; complete over the keys present from start to end")
 	tup := x.Type().(*types.Tuple)
 	kv := key
